@@ -7,6 +7,7 @@
 -/
 import AgeModel.Extracted.CallOrder
 import AgeModel.Extracted.Consts
+import Proofs.GoTieScrypt
 namespace AgeModel
 namespace Tie.C10
 
@@ -24,6 +25,54 @@ theorem defaults_in_range :
     1 ≤ Extracted.scryptDefaultWorkFactor ∧
     Extracted.scryptDefaultWorkFactor ≤ Extracted.scryptDefaultMaxWorkFactor ∧
     Extracted.scryptDefaultMaxWorkFactor ≤ 30 := by decide
+
+
+/-! ## The code itself (DESIGN.md §5.3)
+
+`(*ScryptIdentity).unwrap`, `(*ScryptIdentity).Unwrap` and `multiUnwrap` are TRANSLATED
+from scrypt.go / age.go on every run; `format.DecodeString`, `scrypt.Key`, `aeadDecrypt`
+stay abstract (parameters, bundled with what is assumed of them in `GoTie.ScryptEnv`).
+What the translated code answers is what the model answers (so `Props.C10`'s
+`scrypt_identity_alone`, `workfactor_guard`, `workfactor_canonical`, `kdf_cost_bounded`
+are about the source text), and — the clause about WORK — whenever the model's
+key-derivation log is empty the code returns WITHOUT CALLING `scrypt.Key`: it is handed
+one that faults when called and still returns normally. -/
+
+theorem scrypt_unwrap_tie (P : Prims) (E : GoTie.ScryptEnv P) (pw : Bytes) (maxWF : Nat) (s : Format.Stanza) :
+    ∃ r, Extracted.age_ScryptIdentity_unwrap E.D E.K E.A ⟨pw, Int.ofNat maxWF⟩ (GoTie.toGoStanza s) = .ok r ∧
+      GoTie.resClass r = (unwrapScrypt P pw maxWF s).1 :=
+  GoTie.scrypt_unwrap_tie P E pw maxWF s
+
+/-- no key derivation unless the model logs one -/
+theorem scrypt_unwrap_no_kdf (P : Prims) (E : GoTie.ScryptEnv P) (pw : Bytes) (maxWF : Nat) (s : Format.Stanza)
+    (h : (unwrapScrypt P pw maxWF s).2 = []) :
+    ∃ r, Extracted.age_ScryptIdentity_unwrap E.D (fun _ _ _ _ _ _ => .error (.panic 99)) E.A ⟨pw, Int.ofNat maxWF⟩
+        (GoTie.toGoStanza s) = .ok r ∧
+      GoTie.resClass r = (unwrapScrypt P pw maxWF s).1 :=
+  GoTie.scrypt_unwrap_no_kdf P E pw maxWF s h
+
+/-- when one is derived, its cost parameter is `2^logN` for the logged `logN ≤ maxWF`, and that is the only call -/
+theorem scrypt_unwrap_kdf_args (P : Prims) (E : GoTie.ScryptEnv P) (pw : Bytes) (maxWF : Nat) (s : Format.Stanza)
+    (logN : Nat) (h : (unwrapScrypt P pw maxWF s).2 = [logN]) :
+    logN ≤ maxWF ∧
+    ∀ K', (∀ salt, K' pw salt ((2 : Int) ^ logN) 8 1 32 = E.K pw salt ((2 : Int) ^ logN) 8 1 32) →
+      Extracted.age_ScryptIdentity_unwrap E.D K' E.A ⟨pw, Int.ofNat maxWF⟩ (GoTie.toGoStanza s) =
+      Extracted.age_ScryptIdentity_unwrap E.D E.K E.A ⟨pw, Int.ofNat maxWF⟩ (GoTie.toGoStanza s) :=
+  GoTie.scrypt_unwrap_kdf_args P E pw maxWF s logN h
+
+theorem scrypt_Unwrap_tie (P : Prims) (E : GoTie.ScryptEnv P) (pw : Bytes) (maxWF : Nat) (ss : List Format.Stanza) :
+    ∃ r, Extracted.age_ScryptIdentity_Unwrap GoTie.errorsIsEq E.D E.K E.A ⟨pw, Int.ofNat maxWF⟩ (ss.map GoTie.toGoStanza) = .ok r ∧
+      GoTie.resClass r = (Identity.unwrapLog P (.scrypt pw maxWF) ss).1 :=
+  GoTie.scrypt_Unwrap_tie P E pw maxWF ss
+
+/-- a passphrase stanza that is not alone: refused before anything is decoded, derived or opened
+    (all three callees fault when called) -/
+theorem scrypt_Unwrap_alone (pw : Bytes) (maxWF : Int) (ss : List Format.Stanza)
+    (h : ss.any (fun s => s.type = tScrypt) = true) (hn : ss.length ≠ 1) :
+    Extracted.age_ScryptIdentity_Unwrap GoTie.errorsIsEq (fun _ => .error (.panic 97)) (fun _ _ _ _ _ _ => .error (.panic 98))
+      (fun _ _ _ => .error (.panic 99)) ⟨pw, maxWF⟩ (ss.map GoTie.toGoStanza) =
+      .ok ([], some ⟨"age.(*ScryptIdentity).Unwrap", 0, []⟩) :=
+  GoTie.scrypt_Unwrap_alone pw maxWF ss h hn
 
 end Tie.C10
 end AgeModel
